@@ -35,12 +35,13 @@ def pairs(pname):
     if k > 1:
         out.append(('identical, atoms listed in reverse order', list(pel)[::-1], pp[::-1].copy()))
         out.append(('grown, shared atoms listed last and reversed', ['F'] + list(pel)[::-1], np.vstack([pp[-1] + [0.4, 0.9, 1.1], pp[::-1]])))
+    out.append(('identical but last atom displaced by 0.04 A', list(pel), np.vstack([pp[:-1], pp[-1:] + [0.0, 0.04, 0.0]])))
     out.append(('disjoint larger', ['Xe', 'He', 'Ne'][:1] * 1 + ['He', 'Ne'] + ['Kr'] * (k - 1), np.vstack([pp[:1] + [0.3, 0.3, 0.3], pp[:1] + [1.0, -0.9, 0.4], pp[:1] + [-0.8, 1.1, 0.2]] + [pp[j:j + 1] + [0.2, -0.35, 0.45] for j in range(1, k)])))
     return out
 
 
 PAIR_NAMES = [p[0] for p in pairs('CNO')]
-INSERTING = ['one element changed', 'all elements changed', 'grown (shared core + 2 atoms)', 'grown, shared atoms listed last and reversed', 'disjoint larger']
+INSERTING = ['one element changed', 'all elements changed', 'grown (shared core + 2 atoms)', 'grown, shared atoms listed last and reversed', 'identical but last atom displaced by 0.04 A', 'disjoint larger']
 
 
 def shared_map(pel, pp, rel, rp):
